@@ -78,7 +78,7 @@ type c08State struct {
 	data     []data.Map
 	ill      []data.Map
 	ij       []data.Map
-	cats     map[int]*faults.Bundle
+	cats     map[int]soymsg.Bundle
 	reused   map[string]*soyhtml.Renderer
 	model    map[string]modelOut
 	counters map[string]int64
@@ -96,7 +96,7 @@ func (st *c08State) cat(kind int) soymsg.Bundle {
 	}
 	b := st.cats[kind]
 	if b == nil {
-		b = faults.NewBundle(faults.BundleKind(kind), st.cc.Msgs)
+		b = faults.Catalogue(kind, st.cc.Msgs)
 		st.cats[kind] = b
 	}
 	return b
@@ -119,7 +119,7 @@ func (st *c08State) modelRender(op c08Op, ill bool) (modelOut, error) {
 	}
 	var cat soymsg.Bundle
 	if op.Cat >= 0 {
-		cat = faults.NewBundle(faults.BundleKind(op.Cat), cc.Msgs)
+		cat = faults.Catalogue(op.Cat, cc.Msgs)
 	}
 	var buf bytes.Buffer
 	saved := sut.Injector
@@ -142,9 +142,13 @@ func (st *c08State) digests() c08Digests {
 	d.globals = digest.Of(soyhtml.Funcs, soyhtml.PrintDirectives, soyhtml.ObligatoryPrintDirectiveNames, soyhtml.Logger,
 		soyjs.Funcs, soyjs.PrintDirectives, data.DefaultStructOptions)
 	var cs []interface{}
-	for k := 0; k < int(faults.NumBundleKinds); k++ {
+	for k := 0; k <= faults.KindPO; k++ {
 		if b := st.cats[k]; b != nil {
-			cs = append(cs, k, b.Msgs)
+			if stub, ok := b.(*faults.Bundle); ok {
+				cs = append(cs, k, stub.Msgs) // not the stub's own call counters
+			} else {
+				cs = append(cs, k, b)
+			}
 		}
 	}
 	d.cats = digest.Of(cs...)
@@ -170,7 +174,7 @@ func (a c08Digests) diff(b c08Digests) string {
 }
 
 func validEntry(c *gen.Case, op c08Op) bool {
-	return op.Data >= 0 && op.Data < len(c.Data) && op.IJ >= 0 && op.IJ < len(c.IJ) && op.Cat < int(faults.NumBundleKinds)
+	return op.Data >= 0 && op.Data < len(c.Data) && op.IJ >= 0 && op.IJ < len(c.IJ) && op.Cat <= faults.KindPO
 }
 
 // c08Exec runs a history and applies the invariants after every operation.
@@ -185,7 +189,7 @@ func c08Exec(cs *c08Hist, counters map[string]int64) (*wk.Failure, int) {
 	if err != nil {
 		return &wk.Failure{Class: "invalid-case", Detail: err.Error()}, 0
 	}
-	st := &c08State{cs: cs, cc: cc, cats: map[int]*faults.Bundle{}, reused: map[string]*soyhtml.Renderer{}, model: map[string]modelOut{}, counters: counters}
+	st := &c08State{cs: cs, cc: cc, cats: map[int]soymsg.Bundle{}, reused: map[string]*soyhtml.Renderer{}, model: map[string]modelOut{}, counters: counters}
 	for i, d := range cs.Bundle.Data {
 		st.data = append(st.data, d.Map())
 		st.ill = append(st.ill, illTyped(d, i).Map())
@@ -195,7 +199,7 @@ func c08Exec(cs *c08Hist, counters map[string]int64) (*wk.Failure, int) {
 	}
 	// catalogues are built up front so that their digest is taken before the first operation
 	for _, op := range cs.Ops {
-		if op.Cat >= 0 && op.Cat < int(faults.NumBundleKinds) {
+		if op.Cat >= 0 && op.Cat <= faults.KindPO {
 			st.cat(op.Cat)
 		}
 	}
@@ -340,7 +344,7 @@ func c08History(r *simrt.RNG, gc *gen.Case, maxLen int) *c08Hist {
 	}
 	catKind := -1
 	if r.Intn(2) == 0 {
-		catKind = r.Intn(3)
+		catKind = []int{0, 1, 2, faults.KindPO, faults.KindPO}[r.Intn(5)]
 	}
 	for i := 0; i < n; i++ {
 		e := hot[r.Intn(len(hot))]
@@ -349,7 +353,7 @@ func c08History(r *simrt.RNG, gc *gen.Case, maxLen int) *c08Hist {
 		}
 		op := c08Op{Template: e.Template, Data: e.Data, IJ: e.IJ, Cat: catKind}
 		if r.Intn(6) == 0 {
-			op.Cat = r.Intn(int(faults.NumBundleKinds)+1) - 1
+			op.Cat = r.Intn(faults.KindPO+2) - 1
 		}
 		switch x := r.Intn(100); {
 		case x < 40:
@@ -421,7 +425,7 @@ func C08(c *wk.Ctx) {
 	}
 	units, perUnit, maxLen := 800, 6, 8
 	if c.Tier == "thorough" {
-		units, perUnit, maxLen = 20000, 6, 40
+		units, perUnit, maxLen = 40000, 6, 40
 	}
 	if c.Mode == "plan" {
 		c.Emit(map[string]interface{}{"ev": "plan", "units": units, "histories_per_unit": perUnit, "max_history": maxLen})
